@@ -141,6 +141,22 @@ Proof.
   destruct (policy_end_rate_is_calc _ _ _ Hr) as (pm' & Hc & Hp). exists r, pm'. auto.
 Qed.
 Print Assumptions C10_accepted_policy_end_rate.
+(* ... and a running rate set by ModifyPmtpRates while such a policy is scheduled (not started yet) is the rate the policy will
+   start from: it is accepted only if the policy still ends above -1 (finding F-30: policy -0.5 scheduled, then running rate
+   -0.5 set, gave exactly -1) *)
+Theorem C10_rates_under_scheduled_policy : forall s b rv e br s',
+  modify_pmtp_rates s b (DVal rv) e br = Ok s' -> in_window s = false -> pol_height s < pm_start (pol_pmtp s) ->
+  pm_gov (pol_pmtp s) < 0 -> 0 < pm_epoch_len (pol_pmtp s) ->
+  pm_inter (pol_pmtp s') = rv /\ pm_gov (pol_pmtp s') = pm_gov (pol_pmtp s) /\
+  pm_start (pol_pmtp s') = pm_start (pol_pmtp s) /\ pm_end (pol_pmtp s') = pm_end (pol_pmtp s) /\
+  exists bb, br = Some bb /\ (0 <= bb \/ exists r, policy_end_rate (pol_pmtp s') bb = Ok r /\ - PREC < r).
+Proof. exact modify_pmtp_rates_end_rate. Qed.
+Print Assumptions C10_rates_under_scheduled_policy.
+Example C10_f30_rate_under_scheduled_policy_refused :
+  let s := mkPol 3 (mkLPS 1000 10 true 400) (mkPM 5 5 1 (- PREC / 2) 0 0 0 0 0) [] [] in
+  modify_pmtp_rates s DEmpty (DVal (- PREC / 2)) false (Some (- PREC / 2)) = Err 5 /\
+  exists s', modify_pmtp_rates s DEmpty (DVal (- PREC / 4)) false (Some (- PREC / 2)) = Ok s'.
+Proof. vm_compute. split; [reflexivity|eexists; reflexivity]. Qed.
 Example C10_f29_second_policy_refused :
   let s := mkPol 6 (mkLPS 1000 10 true 400) (mkPM 3 3 1 (- PREC / 2) (- PREC / 2) (- PREC / 2) (- PREC / 2) 0 0) [] [] in
   update_pmtp_params s (DVal (- PREC / 2)) 1 7 7 (Some (- PREC / 2)) = Err 5 /\
